@@ -14,8 +14,13 @@ BASELINE = "cd /repo && /venv/bin/python -m pytest -ra -q -p no:cacheprovider --
 def main():
     props = [json.loads(l) for l in open(os.path.join(ROOT, "properties.jsonl"))]
     checks, na = [], []
+    hold_file = os.path.join(ROOT, "verif", "props", "HOLD")
+    hold = set(open(hold_file).read().split()) if os.path.exists(hold_file) else set()
     for p in props:
         pid = p["id"]
+        if pid in hold:        # module under construction: not claimed until its check is quiet on the unchanged tree
+            na.append({"property_id": pid, "reason": "check under construction, not claimed yet (see DESIGN.md section 11.3)"})
+            continue
         try:
             P = importlib.import_module("verif.props." + pid)
         except ModuleNotFoundError:
